@@ -159,6 +159,8 @@ def native_replay(prop, job, workdir, requests, tag, race=False, timeout=600):
         r = sh([GOSMT, "rewrite", real, outp] + sorted(modes))
         if r.returncode == 0:
             repl[real] = outp
+        else:
+            print("INCONCLUSIVE: native instrumentation of %s failed: %s" % (f, (r.stdout + r.stderr)[-300:]))
     ofile = os.path.join(workdir, "overlay_%s_%s.json" % (gopkg, tag))
     json.dump({"Replace": repl}, open(ofile, "w"), indent=1)
     rfile = os.path.join(workdir, "requests_%s_%s.json" % (gopkg, tag))
